@@ -481,7 +481,7 @@ func stRunScenario(sc stScenario, idx int64) *stRun {
 
 	// ------------------------------------------------ offline check of the event log
 	evs := rec.snapshot()
-	var firstSend interface{}
+	var firstSend, lastSend interface{}
 	successSeq, createDoneSeq := -1, -1
 	var uSent, uRecv []interface{}
 	createOKs := 0
@@ -491,8 +491,18 @@ func stRunScenario(sc stScenario, idx int64) *stRun {
 			if firstSend == nil {
 				firstSend = e.arg
 			}
+			lastSend = e.arg
 		case "create.call":
 			h.hit("C12.first-message-visible")
+			if createDoneSeq >= 0 && createOKs == 0 {
+				// a creation attempt after a failed one: the stream is created by the SendMsg
+				// in progress, whose message is the first one on the stream
+				h.hit("C12.retry-message-visible")
+				if e.arg != lastSend {
+					h.fail("C12.first-message", "retry", "after a failed creation the streamer's context carries request %v, the SendMsg that creates the stream sends %v", e.arg, lastSend)
+					return h
+				}
+			}
 			if successSeq >= 0 {
 				h.fail("C12.second-creation", "", "the streamer was invoked again after a successful creation")
 				return h
